@@ -410,3 +410,72 @@ func runC13DeafPeer(run *Run, seed int64, mode string) (out []*c01Result) {
 	}
 	return
 }
+
+// runC13SilentFlood: hundreds of inbound streams that are opened and then say nothing, all at once. Each must be
+// given up (closed by the node) about TCPTimeout after it was accepted - none may be left without an owner - a
+// genuine request made meanwhile or afterwards is still served, and Shutdown in the middle of it returns.
+func runC13SilentFlood(run *Run, seed int64, n int, shutdownMidway bool) (out []*c01Result) {
+	fail := func(key, f string, a ...any) {
+		out = append(out, &c01Result{"C13/" + key, fmt.Sprintf(f, a...)})
+	}
+	const tcpTimeout = 2 * time.Second
+	rig, err := NewRig(RigOpts{Seed: seed, Spec: NodeSpec{Name: "V", IP: "10.9.9.9", Mutate: func(cf *memberlist.Config) {
+		cf.ProbeInterval = noProbe
+		cf.PushPullInterval = 0
+		cf.GossipInterval = 0
+		cf.TCPTimeout = tcpTimeout
+	}}})
+	if err != nil {
+		fail("harness/create", "%v", err)
+		return
+	}
+	defer rig.Close()
+	x := rig.AddPeer("x", "10.9.1.1", 7946)
+	rig.Introduce(x, 1)
+	Settle(time.Millisecond)
+	var conns []*Conn
+	offered := 0
+	for i := 0; i < n; i++ {
+		c := rig.C.Net.NewLoosePair(fmt.Sprintf("10.9.7.%d:%d", 1+i%250, 20000+i), rig.V.EP.Addr)
+		if rig.V.EP.Offer(c) {
+			offered++
+			conns = append(conns, c)
+		}
+		if i%100 == 99 {
+			Settle(time.Millisecond)
+		}
+	}
+	run.Cell("silent-flood", fmt.Sprintf("n=%d", n), fmt.Sprintf("shutdown=%v", shutdownMidway))
+	run.Eval(int64(offered))
+	if shutdownMidway {
+		Settle(tcpTimeout / 4)
+		done := make(chan error, 1)
+		go func() { done <- rig.V.ML().Shutdown() }()
+		select {
+		case <-done:
+			rig.V.Stopped = true
+		case <-time.After(20 * tcpTimeout):
+			fail("shutdown-blocked/silent-flood", "Shutdown had not returned %v after it was called while %d silent inbound streams were open (TCPTimeout %v)", 20*tcpTimeout, offered, tcpTimeout)
+			rig.C.Net.CloseAll()
+			Settle(time.Second)
+			return
+		}
+	}
+	Settle(tcpTimeout + time.Second)
+	open := 0
+	for _, c := range conns {
+		if !c.Acceptor.IsClosed() {
+			open++
+		}
+	}
+	if open > 0 {
+		fail("conn-leak/silent-flood", "%d of %d inbound streams that never sent a byte are still held open by the node %v after they were accepted (TCPTimeout %v)", open, offered, tcpTimeout+time.Second+time.Duration(n/100)*time.Millisecond, tcpTimeout)
+	}
+	if !shutdownMidway {
+		// the node still serves a genuine stream
+		if frames, _, err := x.PushPull(false, []WPushNodeState{x.Self(1)}, nil); err != nil || len(frames) == 0 {
+			fail("stream-listener-dead/silent-flood", "after %d silent streams a genuine state exchange is no longer answered (%v)", offered, err)
+		}
+	}
+	return
+}
